@@ -185,13 +185,29 @@ def iter_not_substituted_in_alloc_extent(sig, case):
     reach the extent expressions inside an Alloc's type: an allocation whose extent mentions
     the iterator keeps the old, now undeclared, symbol"""
     d = _diag(sig)
-    return (
+    if (
         sig.get("monitor") == "validate"
         and sig.get("kind") == "use_out_of_scope"
         and d.get("oos_binder") == "iter"
         and d.get("iter_in_alloc_extent")
         and sig.get("op") in ("divide_loop", "divide_with_recompute", "mult_loops", "shift_loop", "cut_loop", "join_loops", "unroll_loop")
+    ):
+        return True
+    # shift_loop keeps the iterator's symbol and substitutes `i + (lo' - lo)` for it: the extent in the
+    # allocation's type is the one place the substitution does not reach, so the buffer keeps the
+    # size computed from the unshifted iterator (too small / non-positive)
+    return (
+        sig.get("op") == "shift_loop"
+        and sig.get("monitor") == "safety"
+        and str(sig.get("kind", "")).startswith(("event:oob", "event:alloc_size"))
+        and bool(d.get("iter_in_alloc_extent"))
     )
+
+
+def autolift_alloc_out_of_if(sig, case):
+    """autolift_alloc (deprecated DoLiftAlloc) lifts an allocation out of an `if` by inserting it in
+    front of the if and leaving the original in place: the name is declared twice"""
+    return sig.get("op") == "autolift_alloc" and sig.get("monitor") == "validate" and sig.get("kind") == "rebound_while_live"
 
 
 def c17_negated_zero_literal(sig, case):
